@@ -32,7 +32,9 @@ fn main() {
     collect(Path::new(&a[2]), "", &mut files);
     let ds = std::path::PathBuf::from(&a[3]);
     let rt = tokio::runtime::Builder::new_current_thread()
-        .enable_all()
+        // no I/O driver: the runtime then parks on a futex, not on an eventfd, so the only `write` calls of the
+        // blocking thread are the padding and the datastore writes (deterministic ordinals for strace)
+        .enable_time()
         .max_blocking_threads(1)
         .thread_keep_alive(std::time::Duration::from_secs(600))
         .build()
